@@ -269,7 +269,7 @@ def open_keys(pid):
 # Driver
 # ---------------------------------------------------------------------------
 def write_replay(pid, key, case, detail):
-    d = VERIF / "replays" / pid
+    d = Path(os.environ.get("VERIF_REPLAY_DIR") or (VERIF / "replays")) / pid
     d.mkdir(parents=True, exist_ok=True)
     name = "".join(c if c.isalnum() or c in "-_" else "_" for c in key)[:80]
     path = d / f"{name}.json"
@@ -333,12 +333,12 @@ def finish(ctx: Ctx, mod) -> int:
         "wall_s": round(wall, 2),
         "violations": len(violations),
     }
-    evdir = VERIF / "evidence"
-    evdir.mkdir(exist_ok=True)
+    evdir = Path(os.environ.get("VERIF_EVIDENCE_DIR") or (VERIF / "evidence"))
+    evdir.mkdir(parents=True, exist_ok=True)
     (evdir / f"{pid}.json").write_text(json.dumps(ev, indent=1, default=repr, sort_keys=True) + "\n")
 
     for key, path, detail in violations:
-        rel = os.path.relpath(path, VERIF)
+        rel = os.path.relpath(path, VERIF) if str(path).startswith(str(VERIF)) else str(path)
         print(f"VIOLATION property={pid} replay={rel} key={key} :: {detail[:300]}")
     print(
         f"[{pid}] tier={ctx.tier} seed={ctx.seed} evaluations={ctx.evaluations} "
